@@ -148,26 +148,29 @@ def _verdict_chunk(args):
                     continue
                 o = rng.choice(others_)
                 for side in ("subject", "object"):
+                  for rverb in ("should_not", "should"):
                     for imp in (True, False):
                         for exc in (False, True):
                             S_rx, O_rx = ([("regex", rx)], [("name", o)]) if side == "subject" else ([("name", o)], [("regex", rx)])
                             S_nm, O_nm = ([("name", a)], [("name", o)]) if side == "subject" else ([("name", o)], [("name", a)])
                             if not no_parent_self_import(imports, S_nm + O_nm):
                                 continue
-                            kind, msg = outcome(make_rule(S_rx, "should_not", imp, exc, O_rx), arch)
-                            want = doc_verdict(mods, imports, S_nm, "should_not", imp, exc, O_nm)
+                            kind, msg = outcome(make_rule(S_rx, rverb, imp, exc, O_rx), arch)
+                            want = doc_verdict(mods, imports, S_nm, rverb, imp, exc, O_nm)
                             out["cases"] += 1
-                            inp = dict(tree=tree, imports=[list(p) for p in listed], regex=rx, regex_side=side, matched=a, other=o, verb="should_not", import_=imp, except_=exc)
+                            inp = dict(tree=tree, imports=[list(p) for p in listed], regex=rx, regex_side=side, matched=a, other=o, verb=rverb, import_=imp, except_=exc)
                             if kind == "error" or (kind == "pass") != want:
                                 if len(out["violations"]) < 3:
                                     out["violations"].append(dict(case="verdict-regex", detail=f"regex {rx!r} ({side}) matches only {a!r} from the start; real outcome {kind} ({msg}); "
                                                                   f"the rule naming {a!r} is documented to {'pass' if want else 'fail'}", input=inp))
                             elif check_report and kind == "fail":
-                                got_c, _, bad = parse_message(msg)
-                                ref_c, _ = reference_report(mods, imports, S_nm, "should_not", imp, exc, O_nm)
-                                if got_c != ref_c:
+                                # the message names the MODULES the regex stands for (pairs and, for a missing import, the subject with the objects it lacks)
+                                got_c, got_m, bad = parse_message(msg)
+                                ref_c, ref_m = reference_report(mods, imports, S_nm, rverb, imp, exc, O_nm)
+                                if got_c != ref_c or got_m != ref_m:
                                     if len(out["violations"]) < 3:
-                                        out["violations"].append(dict(case="report-regex", detail=f"regex {rx!r} ({side}) matches only {a!r} from the start; message {msg!r} reports {sorted(got_c)}, reference {sorted(ref_c)}", input=inp))
+                                        out["violations"].append(dict(case="report-regex", detail=f"regex {rx!r} ({side}) matches only {a!r} from the start; message {msg!r} reports {sorted(got_c)} / "
+                                                                      f"{ {k: sorted(v) for k, v in got_m.items()} }, reference {sorted(ref_c)} / { {k: sorted(v) for k, v in ref_m.items()} }", input=inp))
             # a partial name '*text' stands for the modules whose names END with text (glob semantics, C08/C11): text occurring further left in other names selects nothing more
             for _ in range(2):
                 a = rng.choice(cand)
@@ -252,11 +255,12 @@ def _verdict_chunk(args):
                     kind, msg = outcome(make_rule(S, "should_not", imp, False, None, anything=True), arch)
                     I = set(imports) if imp else {(b, a) for a, b in imports}
                     subj_names = [x for _, x in S]
-                    # documentation: 'a rule per subject'; claim only where that and 'jointly' agree (no imports between the subjects)
-                    between = any(n in fset(mods, s) and c in desc_set(mods, t[1]) for (n, c) in I for s in S for t in S if s != t)
-                    if between or not no_parent_self_import(imports, S):
+                    # the alias is 'should not import modules except' the subjects themselves, and 'something else' is judged per subject against all objects
+                    # JOINTLY (C01 / C12): an import from one listed subject into another listed subject is not 'something else'
+                    if not no_parent_self_import(imports, S):
                         continue
-                    want = not any(n in fset(mods, s) and c not in desc_set(mods, s[1]) for (n, c) in I for s in S)
+                    all_s = set().union(*[desc_set(mods, s[1]) for s in S])
+                    want = not any(n in fset(mods, s) and c not in all_s for (n, c) in I for s in S)
                     out["cases"] += 1
                     if kind == "error" or (kind == "pass") != want:
                         if len(out["violations"]) < 3:
@@ -408,21 +412,23 @@ def rerun_verdict(inp):
         a, o, side = inp["matched"], inp["other"], inp["regex_side"]
         S_rx, O_rx = ([("regex", inp["regex"])], [("name", o)]) if side == "subject" else ([("name", o)], [("regex", inp["regex"])])
         S_nm, O_nm = ([("name", a)], [("name", o)]) if side == "subject" else ([("name", o)], [("name", a)])
-        kind, msg = outcome(make_rule(S_rx, "should_not", inp["import_"], inp["except_"], O_rx), arch)
-        want = doc_verdict(mods, imports, S_nm, "should_not", inp["import_"], inp["except_"], O_nm)
+        rverb = inp.get("verb", "should_not")
+        kind, msg = outcome(make_rule(S_rx, rverb, inp["import_"], inp["except_"], O_rx), arch)
+        want = doc_verdict(mods, imports, S_nm, rverb, inp["import_"], inp["except_"], O_nm)
         ok = kind != "error" and (kind == "pass") == want
         text = f"regex rule: real outcome {kind} {msg!r}; the rule naming {a!r} is documented to {'pass' if want else 'fail'}"
         if ok and kind == "fail":
-            got_c, _, _ = parse_message(msg)
-            ref_c, _ = reference_report(mods, imports, S_nm, "should_not", inp["import_"], inp["except_"], O_nm)
-            ok = got_c == ref_c
-            text += f"; reported {sorted(got_c)}, reference {sorted(ref_c)}"
+            got_c, got_m, _ = parse_message(msg)
+            ref_c, ref_m = reference_report(mods, imports, S_nm, rverb, inp["import_"], inp["except_"], O_nm)
+            ok = got_c == ref_c and got_m == ref_m
+            text += f"; reported {sorted(got_c)} / {got_m}, reference {sorted(ref_c)} / {ref_m}"
         return ok, text
     S = [tuple(x) for x in inp["subjects"]]
     if inp.get("anything"):
         kind, msg = outcome(make_rule(S, "should_not", inp["import_"], False, None, anything=True), arch)
         I = set(imports) if inp["import_"] else {(b, a) for a, b in imports}
-        want = not any(n in fset(mods, s) and c not in desc_set(mods, s[1]) for (n, c) in I for s in S)
+        all_s = set().union(*[desc_set(mods, s[1]) for s in S])
+        want = not any(n in fset(mods, s) and c not in all_s for (n, c) in I for s in S)
         ok = kind != "error" and (kind == "pass") == want
         return ok, f"real outcome: {kind} {msg!r}; documented semantics: {'pass' if want else 'fail'}"
     O = [tuple(x) for x in inp["objects"]]
